@@ -35,6 +35,7 @@ func (propC03) ID() string { return "C03" }
 func (propC03) Gen(r *Rng, tier string) *World {
 	k := DrawKnobs(r)
 	k.NoSetConst = true
+	k.TupleOp = r.P(0.3)
 	if r.P(0.5) {
 		k.FailOp = true
 	}
